@@ -228,6 +228,30 @@ def _build_hierarchy(cls, py, name):
     per-label Index objects that are shared or separate) must never be observable.  Deterministic: a counter picks the route.'''
     _ROUTE_TICK[0] += 1
     tick = _ROUTE_TICK[0]
+    if py and all(len(t) == 3 for t in py):
+        # depth 3: a full product in product order is, every other time, built by from_product (its level objects are shared);
+        # any tree is, every third time, built from a nested mapping
+        import itertools
+        levels = []
+        for d in range(3):
+            seen = []
+            for t in py:
+                if t[d] not in seen:
+                    seen.append(t[d])
+            levels.append(seen)
+        try:
+            if list(itertools.product(*levels)) == [tuple(t) for t in py] and tick % 2 == 0:
+                return cls.from_product(*levels, name=name)
+            if len(set(map(tuple, py))) == len(py) and tick % 3 == 0:
+                tree = {}
+                for a, b, c in py:
+                    tree.setdefault(a, {}).setdefault(b, []).append(c)
+                ih = cls.from_tree(tree, name=name)
+                if [tuple(x) for x in ih] == [tuple(t) for t in py]:
+                    return ih
+        except Exception:
+            pass
+        return cls.from_labels(py, name=name)
     if not py or any(len(t) != 2 for t in py):
         return cls.from_labels(py, name=name)
     outer = []
